@@ -13,7 +13,7 @@ use vbase::refjson::show_bytes;
 use crate::family::{self, Fam, FamVisitor};
 use crate::sx::walk;
 
-pub const RULE: &str = "(a) transcripts: deterministic case streams (generated and mutated documents, number literals, the positional string sweep of C09 in four placements, skip-stress documents with lookup paths, containers for the lazy iterators, values of the type family for serialization) are replayed in three builds of the same tree — native (AVX2 + PCLMUL), baseline x86-64 (SSE2 composed into 256/512-bit vectors, scalar prefix_xor / get_nonspace_bits / simd_str2int) and forced-portable (array backend) — and a digest of every observable outcome (accept/reject per entry point, DOM dump, decoded strings, raw spans as offsets, iterator items, serialized bytes compact and pretty, error offset/line/column/category) is compared case by case; (b) primitives, in each build, against scalar loops: for u8x16/u8x32/u8x64/i8x32 loadu/storeu/splat/eq/le/gt, Mask |, &, |=, bitmask, splat, for every lane x all 256 byte values x comparison operands; BitMask first_offset/before/all_zero/clear_high_bits; prefix_xor on all single bits, all pairs and random words; get_nonspace_bits for all 256 byte values in each of 64 lanes; simd_str2int for every need 1..=16 x digit-run length 1..=16 (callers guarantee one digit) x terminator bytes. Non-trivial = transcript case of >= 32 bytes (reaches a vector loop) / every (lane, byte) pair; distinct by case.";
+pub const RULE: &str = "(a) transcripts: deterministic case streams (generated and mutated documents, number literals, the midpoints of adjacent doubles of every binary exponent cut to 15..25 digits / extended / re-spelt through the eager number routes f64, f32 and Value, the positional string sweep of C09 in four placements, skip-stress documents with lookup paths, containers for the lazy iterators, values of the type family for serialization) are replayed in three builds of the same tree — native (AVX2 + PCLMUL), baseline x86-64 (SSE2 composed into 256/512-bit vectors, scalar prefix_xor / get_nonspace_bits / simd_str2int) and forced-portable (array backend) — and a digest of every observable outcome (accept/reject per entry point, DOM dump, decoded strings, raw spans as offsets, iterator items, serialized bytes compact and pretty, error offset/line/column/category) is compared case by case; (b) primitives, in each build, against scalar loops: for u8x16/u8x32/u8x64/i8x32 loadu/storeu/splat/eq/le/gt, Mask |, &, |=, bitmask, splat, for every lane x all 256 byte values x comparison operands; BitMask first_offset/before/all_zero/clear_high_bits; prefix_xor on all single bits, all pairs and random words; get_nonspace_bits for all 256 byte values in each of 64 lanes; simd_str2int for every need 1..=16 x digit-run length 1..=16 (callers guarantee one digit) x terminator bytes. Non-trivial = transcript case of >= 32 bytes (reaches a vector loop) / every (lane, byte) pair; distinct by case.";
 pub const ASSUMPTIONS: &[&str] = &["the NEON backend (aarch64) cannot be built or run in this sandbox", "scalar loops define the lane-wise functions"];
 
 // ------------------------------------------------------------------------------------------
